@@ -389,6 +389,43 @@ def check_iter(prog, ctx, an):
     ctx.ok("R14.6", "package", f"{loops} for-loops examined for resize-while-iterating")
 
 
+def check_branch_pairs(prog, ctx):
+    """R14.7: where the in-place switch is written as two branches (`if inplace: x.modify(..) else: x.copy_with(..)`),
+    both branches install the same values - so the in-place result is the value returned out of place."""
+    rid = "R14.7"
+    n = 0
+    for f in sorted(prog.funcs.values(), key=lambda f: f.fq):
+        if f.parent is not None or FLAG not in f.all_params():
+            continue
+        for node in ast.walk(f.node):
+            if not (isinstance(node, ast.If) and src(node.test) == FLAG):
+                continue
+            def calls(stmts, attr):
+                out = {}
+                for st in stmts:
+                    for c in ast.walk(st):
+                        if isinstance(c, ast.Call) and isinstance(c.func, ast.Attribute) and c.func.attr == attr:
+                            out[src(c.func.value)] = c
+                return out
+            mods = calls(node.body, "modify")
+            cws = calls(node.orelse, "copy_with")
+            if not mods and not cws:
+                continue
+            for recv in sorted(set(mods) | set(cws)):
+                n += 1
+                m, c = mods.get(recv), cws.get(recv)
+                if m is None or c is None:
+                    ctx.bad(rid, f, node, f"{recv}: modify={m is not None} copy_with={c is not None}",
+                            f"the in-place and the out-of-place branch do not both update `{recv}`")
+                    continue
+                km = {k.arg: src(k.value) for k in m.keywords}
+                kc = {k.arg: src(k.value) for k in c.keywords}
+                ctx.check(km == kc and not m.args and not c.args, rid, f, node, f"{recv}.modify({km}) vs {recv}.copy_with({kc})"[:160],
+                          f"`{recv}.modify(...)` (in place) and `{recv}.copy_with(...)` (out of place) install the same "
+                          f"{sorted(km)} values")
+    ctx.minimum(rid, 5, "sync_charges, _fuse_core, unfuse, drop_misaligned_sectors (a, b)")
+
+
 def check_dynamic(prog, ctx):
     """dynamic features that would defeat the model are inventoried"""
     for f in prog.funcs.values():
@@ -412,6 +449,7 @@ def run(prog, ctx):
              "copies (_chargemap, _extents, _indices) have no write site")
     ctx.rule("R14.4", "every slot of the class is assigned on every path of __init__, copy and copy_with")
     ctx.rule("R14.5", "no in-place array write (augmented assignment, slice store) targets a block value reachable from a parameter")
+    ctx.rule("R14.7", "two-branch in-place switches install the same values in both branches (modify vs copy_with keyword sets agree)")
     ctx.rule("R14.6", "no dict is resized (del/pop/update/new key) inside a loop that iterates it")
     ctx.fact("effect on a fresh object (constructor result, copy(), copy_with(), dict()/list display, .copy() of a dict) is not an operand write")
     check_dynamic(prog, ctx)
@@ -423,3 +461,4 @@ def run(prog, ctx):
     check_complete(prog, ctx)
     check_inplace_arrays(prog, ctx, an)
     check_iter(prog, ctx, an)
+    check_branch_pairs(prog, ctx)
